@@ -1007,7 +1007,7 @@ def corpus():
 
 def gen(rng, tier):
     if tier == "quick":
-        cases = _gen_cases(rng, int(os.environ.get("C15_QUICK_N", "20")), 1)
+        cases = _gen_cases(rng, int(os.environ.get("C15_QUICK_N", "17")), 1)
     else:
         cases = _gen_cases(rng, int(os.environ.get("C15_THOROUGH_N", "500")), 12)
     prefetch(corpus() + cases, chunk=12 if tier == "quick" else 30)
@@ -1053,7 +1053,7 @@ if __name__ != "__main__":
         coq_fn="run_show",
         to_coq=to_coq,
         model_equal=model_equal,
-        shard=int(os.environ.get("C15_SHARD", "16")),
+        shard=int(os.environ.get("C15_SHARD", "36")),
         nontrivial=lambda c, o: ">d" in o and ("LD" in o or "LL" in o or "LA" in o),
         histogram=_hist,
         describe=_describe,
